@@ -146,8 +146,9 @@ func c16BuildWorld(profile int) *c16World {
 	w := &c16World{}
 	w.acc.add("as:bank", 0)
 	w.acc.add("éx:tra", 0) // declared only; its first letter takes two bytes
+	w.acc.add("ex:😀k", 0)  // declared only; a character outside the BMP (two UTF-16 units)
 	w.com.add("EUR", 0)
-	w.head = "account as:bank\naccount éx:tra\ncommodity EUR\n\n" + w.tx(0, 0, 0, 2, 0, "2024-01-01", "1")
+	w.head = "account as:bank\naccount éx:tra\naccount ex:😀k\ncommodity EUR\n\n" + w.tx(0, 0, 0, 2, 0, "2024-01-01", "1")
 	w.main = "include a.journal\n" + w.head
 	day := 1
 	for _, t := range c16Profiles[profile] {
@@ -209,7 +210,7 @@ type c16Kind struct {
 }
 
 var c16Kinds = [c16NKinds]c16Kind{
-	c16KPosting:      {ContextAccount, c16AlphaAccount, []string{"    ", "\t", "  ", "        "}, 3, []string{"", "ex:", "é", "ex:fo"}, []string{"", "od", "  1 USD"}, 2, true},
+	c16KPosting:      {ContextAccount, c16AlphaAccount, []string{"    ", "\t", "  ", "        "}, 3, []string{"", "ex:", "é", "ex:😀", "ex:fo"}, []string{"", "od", "  1 USD"}, 2, true},
 	c16KVirtual:      {ContextAccount, c16AlphaAccount, []string{"    (", "    ["}, 1, []string{"", "ex:"}, []string{"", ")"}, 1, true},
 	c16KStatus:       {ContextAccount, c16AlphaAccount, []string{"    * ", "    ! "}, 1, []string{"", "ex:"}, []string{""}, 1, true},
 	c16KHeader:       {ContextPayee, c16AlphaPayee, []string{"2024-01-20 ", "2024/1/20 "}, 1, []string{"", "Sh:", "Sh"}, []string{"", "op"}, 1, false},
@@ -328,8 +329,8 @@ func verifC16Pipeline(cfg c16Cfg) {
 	}
 	pre := kd.pres[zzverif.Choice("pre", npre)]
 	ncp := len(kd.cps)
-	if !cfg.allLines && ncp > 3 {
-		ncp = 3
+	if !cfg.allLines && ncp > 4 {
+		ncp = 4
 	}
 	cp := kd.cps[zzverif.Choice("typed", ncp)]
 	nf := cfg.minSym + zzverif.Choice("frag.len", cfg.maxSym-cfg.minSym+1)
